@@ -2913,8 +2913,12 @@ class SDateTime(SDate):
         return _dt.datetime(g(self.y), g(self.m), g(self.d), g(self.H), g(self.M), g(self.S))
 
 
+_STRPTIME_PATTERNS = {}
+
+
 def m_strptime(text, fmt):
-    """datetime.datetime.strptime for fixed-width all-numeric formats made of %y %Y %m %d %H %M %S"""
+    """datetime.datetime.strptime for formats made of %y %Y %m %d %H %M %S: the interpreter's own regular expression for
+    the format (from _strptime) is run by the symbolic regex matcher, the captured fields are converted with int()"""
     text = force(text)
     if not isinstance(text, SStr):
         return _dt.datetime.strptime(text, fmt)
@@ -2925,24 +2929,21 @@ def m_strptime(text, fmt):
             raise Unsupported('strptime format %r' % fmt)
         fields.append(fmt[i + 1])
         i += 2
-    width = sum(4 if f == 'Y' else 2 for f in fields)
-    if len(text) != width:
-        # strptime also accepts one-digit fields; with a symbolic string of another length we do not model that
-        if len(text) > width:
-            raise ValueError('unconverted data remains')
-        raise Unsupported('strptime on a shorter symbolic string')
+    if len(set(fields)) != len(fields) or ('y' in fields and 'Y' in fields):
+        raise Unsupported('strptime format %r' % fmt)
+    sp = _STRPTIME_PATTERNS.get(fmt)
+    if sp is None:
+        import _strptime
+        sp = _STRPTIME_PATTERNS[fmt] = SPattern(_strptime._TimeRE_cache.pattern(fmt), real_re.IGNORECASE)
+    mt = sp.match(text)
+    if mt is None:
+        raise ValueError('time data does not match format')
+    if mt.end() != len(text):
+        raise ValueError('unconverted data remains')
     vals = {}
-    pos = 0
     for f in fields:
-        w = 4 if f == 'Y' else 2
-        acc = z3.IntVal(0)
-        for c in text.chars[pos:pos + w]:
-            ok, v = digit_value(c, 10)
-            if not fork(ok):
-                raise ValueError('time data does not match format')
-            acc = acc * 10 + v
-        vals[f] = acc
-        pos += w
+        v = m_int(mt.group(f))
+        vals[f] = v.z if isinstance(v, SInt) else z3.IntVal(int(v))
     y = vals.get('Y')
     if y is None:
         yy = vals.get('y', z3.IntVal(0))
@@ -2950,7 +2951,7 @@ def m_strptime(text, fmt):
     m = vals.get('m', z3.IntVal(1))
     d = vals.get('d', z3.IntVal(1))
     H, M, S = vals.get('H', z3.IntVal(0)), vals.get('M', z3.IntVal(0)), vals.get('S', z3.IntVal(0))
-    ok = z3.And(m >= 1, m <= 12, d >= 1, d <= _dim(y, m), H <= 23, M <= 59, S <= 61, y >= 1)
+    ok = z3.And(m >= 1, m <= 12, d >= 1, d <= _dim(y, m), H <= 23, M <= 59, S <= 59, y >= 1)
     if not fork(ok):
         raise ValueError('time data does not match format')
     return SDateTime(y, m, d, H, M, S)
@@ -3077,6 +3078,10 @@ def sym_today():
     if 'today' not in st.notes:
         y, m, d = z3.Int('today_y'), z3.Int('today_m'), z3.Int('today_d')
         st.add(z3.And(y >= TODAY_RANGE[0], y <= TODAY_RANGE[1], m >= 1, m <= 12, d >= 1, d <= _dim(y, m)))
+        fixed = CONFIG.get('today_fixed')
+        if fixed is not None:
+            # checks that are not about the clock pin it (and freeze the replay clock to the same date)
+            st.add(z3.And(y == fixed.year, m == fixed.month, d == fixed.day))
         st.notes['today'] = SDate(y, m, d)
     return st.notes['today']
 
